@@ -1,15 +1,20 @@
-(** C09 - JSON accepted by an inferred schema decodes into the type.  (partial)
-    The decoder of encoding/json is not modelled; what is proved is the schema side, for every
-    type of the domain [dom]: the verdict of the inferred schema is the computable function
+(** C09 - JSON accepted by an inferred schema decodes into the type.
+    Schema side, for every type of the domain [dom]: the verdict of the inferred schema is the computable function
     [conforms] of the Go type alone - the JSON shape of the type: the right JSON type, the
     range of a sized integer, the length of an array, every element / member value fitting in
     turn, no undeclared struct member, every member without omitempty/omitzero present, null
-    only behind a pointer (or for a slice).  That [conforms] documents decode is decided by the
-    correspondence law on the real decoder (family infer: every mutated document the schema
-    accepts must decode with DisallowUnknownFields), and the implementation's verdicts are
-    compared with [conforms] itself (spec_mv). *)
+    only behind a pointer (or for a slice); the implementation's verdicts are compared with
+    [conforms] itself (spec_mv).
+    Decoder side: [decodes] (inf/Decode.v) models when encoding/json with DisallowUnknownFields
+    decodes a JSON value into a type without error (null anywhere, integers within the kind's
+    range, float32 within range, exact or case-folded member names, no unknown member, extra
+    array elements dropped ...); it is compared with the real decoder on every mutated
+    document of every case of its domain (spec_impl_decall), and C09_accepted_decode proves
+    that what the inferred schema accepts, the decoder takes - for types without marshaler
+    types and without float32 (finding O-9a), integers within int64, objects without
+    duplicate members.  (partial: the decoder is a model, validated differentially.) *)
 From Coq Require Import List NArith ZArith QArith Bool.
-From JS Require Import Str Lit Json Res GoValue Schema Basic Env Spec Validate Resolve GoType Encode Infer Accept WellTyped C04Main C09Facts Domain Verdict VerdictEnd.
+From JS Require Import Str Lit Json Res GoValue Schema Basic Env Spec Validate Resolve GoType Encode Infer Accept WellTyped C04Main C09Facts Domain Verdict VerdictEnd Decode JsonFacts.
 Import ListNotations.
 Local Open Scope nat_scope.
 
@@ -77,3 +82,34 @@ Example C09_struct_example :
   conforms oS 64 tS (JObj [(lit "a"%lit, num 5); (lit "C"%lit, JNull); (lit "b"%lit, JNull)]) = true /\     (* null for a slice *)
   conforms oS 64 tS JNull = false.
 Proof. vm_compute. repeat split; eauto. Qed.
+
+(** what the inferred schema accepts, the decoder takes *)
+Theorem C09_conforms_decodes : forall o n t j g,
+  good g o t -> nostd t = true -> json_wf j = true -> in_i64 j = true ->
+  conforms o n t j = true -> decodes n t j = true.
+Proof. exact conforms_decodes. Qed.
+Print Assumptions C09_conforms_decodes.
+
+(** end to end in the model: For, Resolve, Validate = nil  ==>  the decoder model accepts *)
+Theorem C09_accepted_decode : forall re_ok re_match hash o,
+  o_ignore o = false ->
+  (forall n x, lookup n (o_schemas o) = Some x -> x = Some str_schema) ->
+  forall t s fuel e calls,
+  dom o t = true -> nostd t = true -> ForType o t = Ok (Some s) ->
+  Resolve re_ok fuel s [] None = Ok (e, calls) ->
+  forall inst, gv_wf inst = true -> json_wf (den inst) = true -> in_i64 (den inst) = true ->
+  exists n : nat, forall n' : nat, (n <= n')%nat -> Validate re_match hash n' e inst = Ok tt -> decodes 64 t (den inst) = true.
+Proof. exact accepted_decodes. Qed.
+Print Assumptions C09_accepted_decode.
+
+(** the decoder model on the example type: case-folded names are matched, unknown members and
+    out-of-range integers refused, null accepted everywhere *)
+Example C09_decodes_example :
+  nostd tS = true /\
+  decodes 64 tS (JObj [(lit "a"%lit, num 5); (lit "C"%lit, JNull)]) = true /\
+  decodes 64 tS (JObj [(lit "A"%lit, num 5); (lit "c"%lit, JBool true)]) = true /\      (* folded names *)
+  decodes 64 tS (JObj [(lit "a"%lit, JNull)]) = true /\                                   (* null leaves the zero value; C may be missing *)
+  decodes 64 tS (JObj [(lit "a"%lit, num 5); (lit "d"%lit, JNull)]) = false /\           (* unknown member *)
+  decodes 64 tS (JObj [(lit "a"%lit, num 200)]) = false /\                                (* int8 *)
+  decodes 64 tS (JObj [(lit "b"%lit, JArr [num 1])]) = false.                              (* []string *)
+Proof. vm_compute. repeat split. Qed.
